@@ -283,6 +283,7 @@ def run(ctx):
     # ---------------- R09.9 the size of a big integer is counted in bytes
     big_integer_units(ctx)
     native_object_size(ctx)
+    size_independent_of_sharing(ctx)
 
 
 def big_integer_units(ctx):
@@ -610,3 +611,40 @@ def allocate_table(ctx, b):
         out.append((scen, want, got))
     _ALLOC_TABLE[b.id] = out
     return out
+
+
+def size_independent_of_sharing(ctx):
+    """R09.11: the bytes accounted for a value are given back by its Drop exactly as recorded (R09.2/R09.3), so the *recorded* number
+    has to cover what the value keeps alive for as long as it lives.  A size model that consults a reference count
+    (Rc::strong_count / weak_count) records less when a part is shared at construction time -- and nobody accounts for that part
+    once the other owner is gone.  Every size-model body (dyn_size impls, XValue::size and the helpers they call in the crate) is
+    free of reference-count reads."""
+    mir = ctx.mir
+    r11 = ctx.rule('R09.11', 'no size model reads a reference count (the accounted size does not depend on who else holds a part)')
+    roots = [b for b in mir.bodies if re.search(r'XNativeValue>::dyn_size$|^xvalue::XValue::size$|XNativeValue::full_size$', b.nid)]
+    seen, todo = {b.id for b in roots}, list(roots)
+    fam = list(roots)
+    while todo:
+        x = todo.pop()
+        for bb, t in x.calls():
+            cal = t.get('callee')
+            y = mir.by_id.get(cal) if cal else None
+            if y is None and cal:
+                ys = mir.by_nid.get(strip_generics(cal), [])
+                y = ys[0] if len(ys) == 1 else None
+            if y is not None and y.id not in seen and y.file.startswith('src/'):
+                seen.add(y.id)
+                fam.append(y)
+                todo.append(y)
+        for cb in mir.bodies:
+            if cb.kind == 'closure' and cb.id not in seen and cb.nid.startswith(x.nid + '::{closure'):
+                seen.add(cb.id)
+                fam.append(cb)
+                todo.append(cb)
+    for b in fam:
+        bad = [(bb, strip_generics(t.get('callee') or t.get('decl') or '')) for bb, t in b.calls()
+               if re.search(r'(Rc|Arc)(<[^>]*>)?::(strong_count|weak_count)$', strip_generics(t.get('callee') or t.get('decl') or ''))]
+        r11.inst({'size_model': b.nid, 'reference_count_reads': len(bad)}, ok=not bad, kind=b.id)
+        for bb, nm in bad:
+            r11.fail('%s/%s' % (b.nid, nm.split('::')[-1]), mirq.site(b, bb), 'this size model stops counting where a reference count is above one ("someone else already counted it"): a stack built by repeated push accounts one node per version, and when the older versions die their nodes stay alive inside the newest one with nobody accounting for them -- 100000 live nodes are accounted 240 bytes and a size limit below the live payload is not enforced')
+    r11.need(10)
